@@ -1056,6 +1056,19 @@ def future_shapes():
         A(P(f"handover[{k}]", [spawn(2), BO(k), rd("c"), join(2)], [wr("c"), st("f", 1, "rel"), WK]))
         A(P(f"already-ready[{k}]", [st("f", 1), BO(k)]))
         A(P(f"two-blockons[{k}]", [spawn(2), BO(k), BO(k), join(2)], [st("f", 1, "rel"), WK]))
+    # raw wakers: clones of the block_on waker in plain slots, no AtomicWaker lock in between; the wakers
+    # first wait (relaxed, no ordering) until the future announced that it stashed its waker
+    W8 = await_("fr", "rlx")
+    for o in ("rlx", "acq"):
+        so = "rlx" if o == "rlx" else "rel"
+        R1 = I("blockon", "sA", o2="f", k="raw", ord=o)
+        R2 = I("blockon", "sA", o2="f", k="raw", ord=o, ord2="sB", w=1)
+        A(P(f"raw-one-waker[{o}]", [spawn(2), R1, join(2)], [W8, st("f", 1, so), I("wakeslot", "sA")]))
+        A(P(f"raw-wakeref[{o}]", [spawn(2), R1, join(2)], [W8, st("f", 1, so), I("wakeref", "sA")]))
+        A(P(f"raw-wakeref-twice[{o}]", [spawn(2), R1, join(2)], [W8, I("wakeref", "sA"), st("f", 1, so), I("wakeref", "sA")]))
+        A(P(f"raw-two-wakers[{o}]", [spawn(2), spawn(3), R2, join(2), join(3)], [W8, st("f", 1, so), I("wakeslot", "sA")],
+            [W8, st("f2", 1, so), I("wakeslot", "sB")]))
+        A(P(f"raw-never-woken[{o}]", [spawn(2), R1, join(2)], [W8, st("f", 1, so)]))
     return out
 
 
